@@ -92,7 +92,8 @@ func ParseAllPAIValues(buf []byte, offs int, c *PPAIs) (int, ErrorHdr) {
 		next, err = ParseOnePAI(buf, offs, pf)
 		switch err {
 		case 0, ErrHdrMoreValues:
-			if c.N == 0 {
+			if c.N == 0 || c.LastHVal.Empty() {
+				// first value (of a new header)
 				c.LastHVal = pf.V
 			} else {
 				c.LastHVal.Extend(int(pf.V.Offs + pf.V.Len))
